@@ -283,6 +283,32 @@ m("C16-no-skip-empty-subnode", "C16", "iteration_graph/_generate_ir.py",
   "        if is_sparse and len(subnode.compressed_dimensions()) == 0:\n            # If there are no sparse leaves, then this is the last subnode and we are in one of",
   "        if False and len(subnode.compressed_dimensions()) == 0:\n            # If there are no sparse leaves, then this is the last subnode and we are in one of", "C16.dim-not-control")
 
+# ---------------------------------------------------------------- benign twins (behaviour-preserving refactors)
+m("B-from-aos-rename", "C09", "tensor.py", "ALL:level_coordinates", "coords_by_level", None)
+m("B-call-rename", "C10", "compile/_tensor_method.py", "ALL:actual_sizes", "sizes", None)
+m("B-call-rename-C13", "C13", "compile/_tensor_method.py", "ALL:cffi_output", "out_struct", None)
+m("B-call-rename-C14", "C14", "compile/_tensor_method.py", "ALL:cffi_output", "out_struct", None)
+m("B-cli-rename-C15", "C15", "cli.py", ("ALL:(code)", "typer.echo(code)", "write_text(code)"), ("(text)", "typer.echo(text)", "write_text(text)"), None)
+m("B-cli-rename-C08", "C08", "cli.py", ("ALL:(code)", "typer.echo(code)", "write_text(code)"), ("(text)", "typer.echo(text)", "write_text(text)"), None)
+m("B-ownership-rename", "C13", "compile/_cffi_ownership.py", "ALL:i_dimension", "i_lvl", None)
+m("B-peephole-reorder", "C07", "ir/_peephole.py",
+  "    if left == IntegerLiteral(0) or left == FloatLiteral(0.0):\n        return right\n    elif right == IntegerLiteral(0) or right == FloatLiteral(0.0):\n        return left\n    else:\n        return Add(left, right)",
+  "    if right == IntegerLiteral(0) or right == FloatLiteral(0.0):\n        return left\n    elif left == IntegerLiteral(0) or left == FloatLiteral(0.0):\n        return right\n    else:\n        return Add(left, right)", None)
+m("B-llvm-rename", "C06", "codegen/_ir_to_llvm.py", "ALL:    condition = builder.icmp_signed(\">\", left, right)\n    return builder.select(condition, left, right)", "    is_greater = builder.icmp_signed(\">\", left, right)\n    return builder.select(is_greater, left, right)", None)
+m("B-generator-rename", "C05", "iteration_graph/_generate_ir.py", "ALL:while_criteria", "loop_condition", None)
+m("B-assignment-rename", "C12", "expression/ast.py", "ALL:index_names", "seen_indexes", None)
+m("B-problem-rename", "C10", "problem.py", "ALL:new_formats", "ordered_formats", None)
+m("B-format-deparse-negated", "C12", "format/_format.py",
+  "        if self.ordering == tuple(range(self.order)):\n            return \"\".join(mode.character for mode in self.modes)\n        else:\n            return \"\".join(\n                mode.character + str(ordering)\n                for mode, ordering in zip(self.modes, self.ordering, strict=True)\n            )",
+  "        if self.ordering != tuple(range(self.order)):\n            return \"\".join(\n                mode.character + str(ordering)\n                for mode, ordering in zip(self.modes, self.ordering, strict=True)\n            )\n        return \"\".join(mode.character for mode in self.modes)", None)
+m("B-lock-rename", "C14", "compile/_compile_cffi.py", "ALL:lock", "compile_mutex", None)
+m("B-tree-rename", "C09", "tensor.py", "ALL:            idx = sorted(node.keys())\n            indexes[i_level][0].append(indexes[i_level][0][-1] + len(idx))\n            indexes[i_level][1].extend(idx)\n\n            iter_next_level = idx", "            stored = sorted(node.keys())\n            indexes[i_level][0].append(indexes[i_level][0][-1] + len(stored))\n            indexes[i_level][1].extend(stored)\n\n            iter_next_level = stored", None)
+m("B-desugar-rename", "C15", "desugar/_desugar_expression.py", "ALL:intersection_indexes", "hoisted", None)
+m("B-validation-rename", "C09", "compile/_cffi_ownership.py", "ALL:nnz", "n_positions", None)
+m("B-operator-rename", "C11", "tensor.py", ("ALL:indexes = indexes_string(", "ALL:({indexes})"), ("index_list = indexes_string(", "({index_list})"), None)
+m("B-names-helper-C01", "C01", "iteration_graph/_names.py", "def dimension_name(index_variable: str) -> Variable:\n    return Variable(f\"{index_variable}_dim\")", "def dimension_name(index_variable: str) -> Variable:\n    name = f\"{index_variable}_dim\"\n    return Variable(name)", None)
+m("B-escape-helper-C08", "C08", "desugar/_best_algorithm.py", "        match next(to_iteration_graphs(assignment, formats), None):", "        graphs = to_iteration_graphs(assignment, formats)\n        match next(graphs, None):", None)
+
 
 def run_one(mut, keep=False):
     mid, check, file, old, new, expect = mut
@@ -295,7 +321,11 @@ def run_one(mut, keep=False):
         olds = old if isinstance(old, tuple) else (old,)
         news = new if isinstance(new, tuple) else (new,)
         for o, n_ in zip(olds, news):
-            if s.count(o) != 1:
+            if o.startswith("ALL:"):
+                o = o[4:]
+                if s.count(o) < 1:
+                    return mid, check, "SKIP", "anchor text not found", 0
+            elif s.count(o) != 1:
                 return mid, check, "SKIP", f"anchor text matches {s.count(o)} times", 0
             s = s.replace(o, n_)
         p.write_text(s)
